@@ -202,7 +202,7 @@ structure Grow where
 def pushNeighbours (sk : Skeleton) (C : Consts) (v : Nat) (flip : Option Nat) (w : WBM) (b : Nat) :
     Option WBM :=
   let weight := (sk.edges.getD b (0, 0, 0)).2.2
-  -- `if weight <= 0.0 { return; }`: a bond of zero magnitude is skipped (/repo d15cfb0, finding F21;
+  -- `if weight <= 0.0 { return; }`: a bond of zero magnitude is skipped (/repo 523d878, finding F21;
   -- before that fix the neighbour was pushed with weight 0 and the next `pop_index` could compute
   -- 0/0 = NaN, on which `gen_bool` panics)
   if weight ≤ 0 then some w else
